@@ -210,6 +210,76 @@ def canonicalise_closures(raw, log=None):
     return ren
 
 
+def canonicalise_fields(raw, vocab_fields, strip_lt, log=None):
+    """Struct fields of the crate's own types: a field that was renamed is given back its vocabulary name when its
+    type identifies it (exactly one field of that type lost its name and exactly one new name of that type appeared),
+    and aggregates list their fields in the vocabulary's order (declaration order is unobservable)."""
+    ren = {}    # adt -> {new name: vocabulary name}
+    order = {}  # adt -> [names in vocabulary order]
+    for a in raw.get("adts", []):
+        ap = strip_lt(a["path"])
+        ref = vocab_fields.get(ap)
+        if not ref or a.get("kind") != "Struct" or len(a.get("variants", [])) != 1:
+            continue
+        cur = [(f["name"], strip_lt(f["ty"])) for f in a["variants"][0]["fields"]]
+        refn = [n for n, _ in ref]
+        curn = [n for n, _ in cur]
+        m = {}
+        for n, ty in cur:
+            if n in refn:
+                continue
+            lost = [rn for rn, rty in ref if rty == ty and rn not in curn]
+            new_same = [cn for cn, cty in cur if cty == ty and cn not in refn]
+            if len(lost) == 1 and len(new_same) == 1:
+                m[n] = lost[0]
+        if m:
+            ren[ap] = m
+        order[ap] = refn
+    if not ren and not order:
+        return {}
+
+    def fix(node):
+        if isinstance(node, list):
+            for x in node:
+                fix(x)
+            return
+        if not isinstance(node, dict):
+            return
+        if "f" in node and "adt" in node and isinstance(node.get("f"), str):
+            m = ren.get(strip_lt(node["adt"]))
+            if m and node["f"] in m:
+                node["f"] = m[node["f"]]
+        if node.get("k") == "agg" and node.get("agg") == "adt" and node.get("fnames"):
+            ap = strip_lt(node.get("adt", ""))
+            m = ren.get(ap, {})
+            names = [m.get(n, n) for n in node["fnames"]]
+            ref = order.get(ap)
+            if ref and len(names) == len(node.get("fields", [])) and set(names) <= set(ref):
+                pairs = sorted(zip(names, node["fields"]), key=lambda x: ref.index(x[0]))
+                names = [x[0] for x in pairs]
+                node["fields"] = [x[1] for x in pairs]
+            node["fnames"] = names
+        for v in node.values():
+            fix(v)
+
+    fix(raw["bodies"])
+    for a in raw.get("adts", []):
+        m = ren.get(strip_lt(a["path"]))
+        if m:
+            for f in a["variants"][0]["fields"]:
+                f["name"] = m.get(f["name"], f["name"])
+    if log and ren:
+        log("fields given back their vocabulary names: %s" % ren)
+    return ren
+
+
+def load_vocabulary_fields():
+    p = os.path.join(os.path.dirname(os.path.abspath(__file__)), "vocabulary_fields.json")
+    if not os.path.exists(p):
+        return None
+    return json.load(open(p))
+
+
 def load_vocabulary():
     p = os.path.join(os.path.dirname(os.path.abspath(__file__)), "vocabulary.json")
     if not os.path.exists(p):
